@@ -67,9 +67,9 @@ chk("C19", "exploration",
     "bounded exhaustive enumeration (grid / product) with independent reference oracles (own Keccak, go-ethereum curve arithmetic, cosmos-sdk hd, embedded vectors)",
     "DESIGN.md §5 C19", "grid")
 
-C20_TEXT_E = "Schedules (clause: no interleaving of requests, subscriptions and event deliveries crashes or deadlocks): stateless model checking of the real rpc/ethereum/pubsub and rpc/namespaces/ethereum/eth/filters code. A typed AST rewriter generates, from the current tree, an overlay in which channels, select, go, sync and time are operations of a cooperative scheduler; six closed scenarios (subscribe/poll/Unsubscribe clients on one or two topics, re-subscription, error responses, the event bus alone) are explored depth-first over all schedules with at most 2 (thorough: 3) deviations from the default schedule plus a preemption-bounded (CHESS) pass on the smallest systems; every execution runs to quiescence; a panic in any goroutine, a blocked driver thread or a foreign event delivered to a subscriber is a violation; every failing schedule is a replayable choice list."
+C20_TEXT_E = "Schedules (clause: no interleaving of requests, subscriptions and event deliveries crashes or deadlocks): stateless model checking of the real rpc/ethereum/pubsub and rpc/namespaces/ethereum/eth/filters code. A typed AST rewriter generates, from the current tree, an overlay in which channels, select, go, sync and time are operations of a cooperative scheduler; ten closed scenarios (subscribe/poll/Unsubscribe clients on one or two topics, re-subscription, error responses, the event bus alone, polling filters with the timeout loop) are explored depth-first over all schedules with at most 2 (thorough: 3) deviations from the default schedule plus a preemption-bounded (CHESS) pass on the smallest systems; every execution runs to quiescence; a panic in any goroutine, a blocked driver thread, a goroutine that spins forever while nothing else can run, two map accesses not ordered by any lock / channel operation / spawn (vector clocks; the Go runtime aborts the process on concurrent map access) or a foreign event delivered to a subscriber is a violation; every failing schedule is a replayable choice list. Scenarios S7-S9 drive the polling-filter half of the filter API (eth_newBlockFilter / newFilter / newPendingTransactionFilter / getFilterChanges / uninstallFilter and the timeout loop under a virtual clock)."
 chk("C20", "model_checking", C20_TEXT_E,
-    "Unsynchronised memory accesses are invisible to a cooperative scheduler; rpc/websockets.go and the rpc.Notifier based methods of filters/api.go are not driven; CometBFT's websocket client is a shim; bounds as stated in the evidence file.",
+    "Only map accesses are race-checked (happens-before vector clocks), other unsynchronised memory accesses are invisible to a cooperative scheduler; rpc/websockets.go and the rpc.Notifier based methods of filters/api.go are not driven; CometBFT's websocket client is a shim; bounds as stated in the evidence file.",
     "stateless model checking (controlled cooperative scheduler over instrumented real code, deviation-bounded DFS of schedules)",
     "DESIGN.md §3.4, §5 C20", "schedx")
 
